@@ -233,11 +233,6 @@ fn ser_named_type(ty: &OwnedDataModelType, value: &Value, out: &mut Vec<u8>) -> 
             name: _,
             data: OwnedData::Tuple(tys),
         } => {
-            // Tuples with arity of 1 are not arrays, but instead just a single object
-            if tys.len() == 1 {
-                return ser_named_type(&tys[0], value, out);
-            }
-
             let val = value.as_array().right()?;
 
             if val.len() != tys.len() {
@@ -345,11 +340,6 @@ fn ser_named_type(ty: &OwnedDataModelType, value: &Value, out: &mut Vec<u8>) -> 
                         ser_named_type(ty, v, out)?;
                     }
                     OwnedData::Tuple(tys) => {
-                        // Tuples with arity of 1 are not arrays, but instead just a single object
-                        if tys.len() == 1 {
-                            return ser_named_type(&tys[0], v, out);
-                        }
-
                         let val = v.as_array().right()?;
 
                         if val.len() != tys.len() {
